@@ -201,10 +201,43 @@ func init() {
 			c.Fail("setup-error", b.Err.Error())
 			return
 		}
+		// what a ParseArgs call may have written, given what it returned
+		checkWrites := func(label string, err error, so, se string) {
+			if opts&flags.PrintErrors == 0 {
+				if so != "" || se != "" {
+					c.Fail(label+"writes-without-PrintErrors", map[string]interface{}{"stdout": so, "stderr": se})
+				}
+				return
+			}
+			c.Hit("print-errors")
+			wantOut, wantErr := "", ""
+			if err != nil {
+				if fe, ok := err.(*flags.Error); ok && fe.Type == flags.ErrHelp {
+					wantOut = err.Error() + "\n"
+					c.Hit("help-printed")
+				} else {
+					wantErr = err.Error() + "\n"
+				}
+			}
+			if so != wantOut {
+				c.Fail(label+"stdout-content|"+errType(err), map[string]interface{}{"want": wantOut, "got": so})
+			}
+			if se != wantErr {
+				c.Fail(label+"stderr-content|"+errType(err), map[string]interface{}{"want": wantErr, "got": se})
+			}
+		}
 		if badEnvFirst {
 			os.Setenv("C04_INT", "not-a-number")
+			var w0, w1 int64
+			if c04cap != nil {
+				w0, w1 = c04cap.mark()
+			}
 			wr := runParser(b, cfg, nil, runOpts{})
 			os.Unsetenv("C04_INT")
+			if c04cap != nil && wr.Panic == nil {
+				wso, wse := c04cap.since(w0, w1)
+				checkWrites("bad-environment-default|", wr.Err, wso, wse)
+			}
 			if wr.Panic != nil {
 				c.Fail("panic|"+wr.PanicSite, fmt.Sprint(wr.Panic))
 				return
@@ -233,28 +266,7 @@ func init() {
 		c.Outcome(key, errType(rr.Err), fmt.Sprint(len(so) > 0), fmt.Sprint(len(se) > 0), faultNameOrOK(res))
 		c.Hit("err:" + errType(rr.Err))
 		// containment
-		if opts&flags.PrintErrors == 0 {
-			if so != "" || se != "" {
-				c.Fail("writes-without-PrintErrors", map[string]interface{}{"stdout": so, "stderr": se})
-			}
-		} else {
-			c.Hit("print-errors")
-			wantOut, wantErr := "", ""
-			if rr.Err != nil {
-				if fe, ok := rr.Err.(*flags.Error); ok && fe.Type == flags.ErrHelp {
-					wantOut = rr.Err.Error() + "\n"
-					c.Hit("help-printed")
-				} else {
-					wantErr = rr.Err.Error() + "\n"
-				}
-			}
-			if so != wantOut {
-				c.Fail("stdout-content|"+errType(rr.Err), map[string]interface{}{"want": wantOut, "got": so})
-			}
-			if se != wantErr {
-				c.Fail("stderr-content|"+errType(rr.Err), map[string]interface{}{"want": wantErr, "got": se})
-			}
-		}
+		checkWrites("", rr.Err, so, se)
 		// typing
 		if rr.Err == nil {
 			return
@@ -291,7 +303,7 @@ func init() {
 		Setup:      c04Setup,
 		DevBound:   func(bool) int { return 2 },
 		Rule: "four declarations covering every option kind (flags, scalars, map, slice, four callback signatures incl. one that always returns an error, Unmarshaler, ValueValidator, choices on a string and on a bool flag, optional argument, non-ASCII and digit short names, " +
-			"interface-, array-, pointer-to-bool typed fields, a required option, a command with an int positional; the third declaration makes the command mandatory so that unknown words reach the unknown-command diagnosis (words of 31..33 and 64..65 characters included); the fourth is built through the API and has an executable command whose Execute returns an ErrHelp-typed error of its own; maps with named string key / value types and []*int are among the option types); option sets: None and Default with up to 2 of the 5 flags toggled (32 sets); as one more deviation the same parser first fails a parse because an environment default does not convert (must be ErrMarshal) and is then used again; inputs: (i) every byte string of length <= 4 (quick) / <= 5 (thorough) " +
+			"interface-, array-, pointer-to-bool typed fields, a required option, a command with an int positional; the third declaration makes the command mandatory so that unknown words reach the unknown-command diagnosis (words of 31..33 and 64..65 characters included); the fourth is built through the API and has an executable command whose Execute returns an ErrHelp-typed error of its own; maps with named string key / value types and []*int are among the option types); option sets: None and Default with up to 2 of the 5 flags toggled (32 sets); as one more deviation the same parser first fails a parse because an environment default does not convert (must be ErrMarshal, printed exactly as PrintErrors prescribes) and is then used again; inputs: (i) every byte string of length <= 4 (quick) / <= 5 (thorough) " +
 			"over {- = a s x \" \\ 0xC3 0xA9 : 5} as a token alone, after -s, after a command word, after --; (ii) every vector of <= 2 (quick) / <= 3 (thorough) tokens over 72 pathological tokens; oracle: returns normally, error nil or typed as the CLM's fault says, " +
 			"stdout/stderr deltas exactly as PrintErrors prescribes; distinct = distinct (declaration, option set, error class, wrote stdout?, wrote stderr?, model fault)",
 		Assumptions:  []string{"os.Stdout / os.Stderr are swapped for files per worker process and offset deltas read per leaf", "declarations reflect.StructOf cannot build (unexported fields in positional structs) are outside the space"},
